@@ -129,6 +129,7 @@ class Helper:
         self.has_nested = any(isinstance(n, (*FuncNode, ast.ClassDef)) for n in own)
         self.body = _strip_doc(node.body)  # type: ignore[attr-defined]
         self.tail_only = False  # only `return helper(...)` sites can take the body
+        self.same_class_only = False  # call sites outside the defining class are left alone
 
     def gen_ok(self) -> bool:
         """A generator whose every `yield` is a statement and that never returns early."""
@@ -257,7 +258,14 @@ class Inliner:
             if key in self.known or (name.startswith("__") and name.endswith("__")):
                 continue
             h = Helper(key, cls, node, container)
-            if counts.get(name, 0) != 1 or not h.plain or not h.simple_sig or h.recursive or h.has_nested or (h.is_gen and not h.gen_ok()):
+            ambiguous = counts.get(name, 0) != 1
+            if ambiguous and h.is_method and cls is not None and self._unrelated_namesakes(cls, name):
+                # the same name is used by methods of unrelated classes only: `self.name(...)` inside this
+                # class can mean this method alone
+                ambiguous = False
+                h.receiver = "self"
+                h.same_class_only = True
+            if ambiguous or not h.plain or not h.simple_sig or h.recursive or h.has_nested or (h.is_gen and not h.gen_ok()):
                 self.log.append(f"{key}: new, not inlinable (ambiguous name, decorator, signature, generator shape or recursion)")
                 continue
             if not h.is_gen and not h.returns_ok():
@@ -266,6 +274,40 @@ class Inliner:
                 h.tail_only = True
             out.append(h)
         return out
+
+    def _unrelated_namesakes(self, cls: ast.ClassDef, name: str) -> bool:
+        """Every other function called `name` in the package is a method of a class that is neither an
+        ancestor nor a descendant of `cls` (by the base names written in the package)."""
+        classes = self._classes()
+
+        def ancestors(c: ast.ClassDef) -> Set[str]:
+            out: Set[str] = set()
+            work = [c]
+            while work:
+                cur = work.pop()
+                for b in cur.bases:
+                    bn = b.id if isinstance(b, ast.Name) else (b.attr if isinstance(b, ast.Attribute) else None)
+                    if bn and bn not in out:
+                        out.add(bn)
+                        if bn in classes:
+                            work.append(classes[bn][1])
+            return out
+
+        mine = ancestors(cls) | {cls.name}
+        for tree in self.trees.values():
+            for top in tree.body:
+                if isinstance(top, FuncNode) and top.name == name:
+                    return False  # a module-level function of that name
+                if isinstance(top, ast.ClassDef) and top is not cls:
+                    if any(isinstance(m, FuncNode) and m.name == name for m in top.body):
+                        if top.name in mine or cls.name in ancestors(top):
+                            return False
+            for n in ast.walk(tree):
+                if isinstance(n, FuncNode) and n.name == name:
+                    # nested definitions of that name are not resolved
+                    if not any(n in getattr(c, "body", []) for c in ast.walk(tree) if isinstance(c, ast.ClassDef)):
+                        return False
+        return True
 
     def _value_uses(self, h: Helper) -> bool:
         """Is the helper mentioned other than as the callee of a call?"""
@@ -467,6 +509,10 @@ class Inliner:
             for fn in [n for n in ast.walk(tree) if isinstance(n, FuncNode) and n is not h.node]:
                 if h.local and h.container is not fn.body:
                     continue  # a local function is only visible in the function that defines it
+                if h.same_class_only and (h.cls is None or not any(fn is m for m in h.cls.body)):
+                    if any(self._is_call_of(n, h) for n in _own_nodes(fn)):
+                        left += 0  # `self.name(...)` in another class is that class's method
+                    continue
                 if not any(self._is_call_of(n, h) for n in _own_nodes(fn)):
                     continue
                 # the helper's global names must mean the same at the call site: same module, and no local of
